@@ -41,10 +41,25 @@ def load_harness(pid):
     raise SystemExit('no harness for %s' % pid)
 
 
+class CaseTimeout(BaseException):
+    pass
+
+
+def _alarm(signum, frame):
+    raise CaseTimeout()
+
+
 def _run_case_symbolic(args):
     pid, idx, tier, seed = args
     t0 = time.time()
     out = dict(index=idx, error=None)
+    import signal
+    try:
+        signal.signal(signal.SIGALRM, _alarm)
+        # repeating: a bare `except:` in the code under test may swallow the first one
+        signal.setitimer(signal.ITIMER_REAL, float(os.environ.get('VERIF_CASE_TIMEOUT', '900' if tier == 'quick' else '3600')), 5.0)
+    except (ValueError, AttributeError):
+        pass
     try:
         from . import sym as S, engine, loader, world, symnp
         mod = load_harness(pid)
@@ -92,8 +107,19 @@ def _run_case_symbolic(args):
                    obligations=obs, stats=ex.stats.as_dict(), hashes=env.hashes, stubs=dict(symnp.StubLog.used),
                    errors=errors[:5], n_errors=len(errors), assumed_nonzero=assumed_nonzero,
                    unknown_branches=ex.unknown_branches, samples=samples, atoms=len(S.ATOMS))
+    except CaseTimeout:
+        # a single path exceeded the per-case wall budget (usually polynomial blow-up): reported, never counted as success
+        out.update(paths=0, complete=False, outcomes={'timeout': 1}, decisions=0, obligations=[
+            dict(label='case completes within the time budget', status='unknown', how='solver', secs=time.time() - t0, prefix=[])],
+            stats={}, hashes={}, stubs={}, errors=[], n_errors=0, samples=[])
+        out.setdefault('name', 'case-%d' % idx)
     except BaseException as e:
         out['error'] = '%s: %s\n%s' % (type(e).__name__, e, traceback.format_exc(limit=15))
+    finally:
+        try:
+            signal.setitimer(signal.ITIMER_REAL, 0)
+        except (ValueError, AttributeError):
+            pass
     out['wall_s'] = time.time() - t0
     return out
 
